@@ -24,6 +24,7 @@ template <class Json>
 bool matches(const Json& j, const mj::Value& e, std::string& why) {
     using namespace jsoncons;
     const std::string& k = e[0].str();
+    if (k == "any") return true;       // an item whose image is not stated by the specification module (see Cbor!Image)
     if (k == "uint") { uint64_t u; if (!be_to_u64(e[1], u)) { why = "uint too wide"; return false; }
         if (j.type() == json_type::uint64) { if (j.template as<uint64_t>() != u) { why = "uint value " + std::to_string(j.template as<uint64_t>()); return false; } return true; }
         if (j.type() == json_type::int64 && j.template as<int64_t>() >= 0) { if ((uint64_t)j.template as<int64_t>() != u) { why = "uint value"; return false; } return true; }
